@@ -33,7 +33,9 @@ AN == [none |-> [aud |-> NONE, nonce |-> NONE], ok |-> [aud |-> JStr("aud1"), no
        onlyaud |-> [aud |-> JStr("aud1"), nonce |-> NONE], onlynonce |-> [aud |-> NONE, nonce |-> JStr("n1")],
        \* expectations that are a prefix / an extension of what the holder's KB-JWT names
        npre |-> [aud |-> JStr("aud1"), nonce |-> JStr("n")], next |-> [aud |-> JStr("aud1"), nonce |-> JStr("n11")],
-       apre |-> [aud |-> JStr("aud"), nonce |-> JStr("n1")], aext |-> [aud |-> JStr("aud1/"), nonce |-> JStr("n1")]]
+       apre |-> [aud |-> JStr("aud"), nonce |-> JStr("n1")], aext |-> [aud |-> JStr("aud1/"), nonce |-> JStr("n1")],
+       \* an EMPTY expected nonce / audience (a KB-JWT that lacks the claim must not pass for it)
+       nempty |-> [aud |-> JStr("aud1"), nonce |-> JStr("")], aempty |-> [aud |-> JStr(""), nonce |-> JStr("n1")]]
 VArgs == {[res |-> AllRes[r], aud |-> AN[x].aud, nonce |-> AN[x].nonce] : r \in ResSet, x \in AudNonceSet}
 Fam == [k \in {"K1", "K2", "H1", "H2"} |-> "EC"] @@ [k \in {"KE1", "KE2", "HE1", "HE2"} |-> "ED"] @@ [k \in {"S1", "S2", "pub-as-hmac"} |-> "HMAC"]
 \* forged and garbage disclosures
